@@ -4,8 +4,11 @@ Model: coq/theories/C16/Metrics.v (exact rationals; the float64 rounding of
 tp/npig that decides np.searchsorted is the model's `round_f64`); theorems:
 coq/theories/C16/Props.v.
 Tie: correspondence with the real `Evaluator` driven with real `sio.Labels`
-(built through the installed sleap-io API on the asset video): `evaluate()` and
-the five metric methods with default and with custom thresholds.  The OKS score
+(built through the installed sleap-io API on fresh HDF5 videos, several per
+side; user and predicted instances among the ground truth; duplicate / missing /
+unpaired frames): `evaluate()` and the five metric methods with default and with
+custom thresholds, a second call of every metric, a second Evaluator on the same
+label objects.  The OKS score
 matrix each frame pair is matched on is taken from `compute_oks` itself (float64
 values are rationals), so matching, sorting, thresholding and searchsorted are
 compared exactly; real-valued results within float64 tolerance.
@@ -16,8 +19,10 @@ recall).
 
 Finding handled here:
   F6  deleting a matched prediction can raise recall when a prediction processed
-      later in its frame is eligible for the gt instance it frees (score-ordered
-      greedy matching)            (selector delete_frees_gt_for_later_prediction)
+      later in its frame is eligible for the gt instance it frees and was unmatched
+      or matched with an OKS not larger than the one it has with the freed instance
+      (score-ordered greedy matching)
+                                  (selector delete_frees_gt_for_later_prediction)
 """
 from __future__ import annotations
 
@@ -28,7 +33,7 @@ import warnings
 from fractions import Fraction as F
 
 from .. import core
-from .c15 import enc, dec, gen_pose, noisy_copy, visible, n_vis, cposes, cmatrix
+from .c15 import enc, dec, gen_pose, noisy_copy, visible, n_vis, cpose, cposes, cmatrix
 
 PROP_FILES = [core.THEORIES / "C16" / "Props.v"]
 PREAMBLE = ("From SV Require Import C15.Oks C16.Metrics.\nFrom Coq Require Import List QArith.\n"
@@ -40,33 +45,82 @@ EPS = F(1, 2 ** 52)
 
 
 # ---------------------------------------------------------------- generation
+VKEYS = [[0, 0], [0, 1], [1, 0], [1, 1]]          # (file id, dataset id) of the four HDF5 videos the harness can build
+
+
+def gen_videos(rng, mode):
+    """-> (gt video keys, prediction video keys).  Single shared video most of the time; otherwise several
+    videos per side: a gt video without prediction video, extra prediction videos, two videos with the
+    same key on one side (the first one wins on the prediction side), different orders."""
+    if rng.random() < (0.7 if mode == "perfect" else 0.5):
+        k = rng.choice(VKEYS)
+        return [list(k)], [list(k)]
+    gv = [list(k) for k in rng.sample(VKEYS, rng.randint(1, 3))]
+    pv = [list(k) for k in gv]
+    if mode != "perfect":
+        if rng.random() < 0.3 and len(pv) > 1:
+            pv.pop(rng.randrange(len(pv)))              # gt video without prediction video
+        if rng.random() < 0.3:
+            pv.append(list(rng.choice(VKEYS)))          # extra (possibly duplicate-key) prediction video
+        if rng.random() < 0.15:
+            gv.append(list(rng.choice(gv)))             # two gt videos with the same key
+    rng.shuffle(pv)
+    return gv, pv
+
+
 def gen_eval(rng, thorough):
     mode = rng.choice(["perfect", "perfect", "noisy", "noisy", "noisy", "mixed", "far"])
     n_nodes = rng.randint(1, 4)
     R = rng.choice([4, 16, 64])
     p_nan = rng.choice([0, 0, 0.25, 0.4])
     n_frames = rng.randint(1, 4)
-    idxs = rng.sample(range(12), n_frames)
-    ulo = rng.random() < 0.8
-    gtf, prf = [], []
+    gvideos, pvideos = gen_videos(rng, mode)
+    multi = len(gvideos) > 1 or len(pvideos) > 1
+    if multi and rng.random() < 0.5:
+        idxs = [rng.randrange(4) for _ in range(n_frames)]     # the same frame index in several videos
+    else:
+        idxs = rng.sample(range(12), n_frames)
+    ulo = rng.random() < 0.75
+    # image-sized / negative coordinates: one dyadic offset per axis for the whole case
+    off = [F(0), F(0)]
+    if rng.random() < 0.4:
+        off = [F(rng.choice([-20000, -1000, -64, 512, 1000, 4096, 20000])) for _ in range(2)]
+    sh = lambda pose: [[None if v is None else v + off[d] for d, v in enumerate(p)] for p in pose]
+    gtf, prf, gt_vid, pr_vid, gt_kinds, used = [], [], [], [], [], set()
     for fi in idxs:
+        gvi = rng.randrange(len(gvideos))
+        if mode == "perfect" and (gvi, fi) in used:
+            continue                                   # perfect copies: one gt frame per (video, index)
+        used.add((gvi, fi))
         n_gt = rng.choice([1, 1, 2, 2, 3])
         gts = []
         for _ in range(n_gt):
             g = gen_pose(rng, n_nodes, 2, R, p_nan, shape=rng.choice(["free"] * 9 + ["single"]))
             g = whole_nan(g)
-            if n_vis(g) == 0:
+            if n_vis(g) == 0 and (mode == "perfect" or rng.random() < 0.6):
                 g[0] = [F(rng.randrange(0, 8 * R), 8), F(rng.randrange(0, 8 * R), 8)]
-            gts.append(g)
-        if mode != "perfect" and rng.random() < 0.08 and ulo:
-            gts = []                                   # gt frame without user instances: skipped
+            gts.append(g)                              # (non-perfect modes keep a few all-NaN gt instances)
+        if mode != "perfect" and rng.random() < 0.08:
+            gts = []                                   # gt frame without user instances
         if gts and mode != "perfect" and rng.random() < 0.1:
             gts[-1] = [list(p) for p in gts[0]]        # two animals on top of each other
-        gtf.append([fi, gts])
+        kinds = [None] * len(gts)
+        if mode != "perfect" and rng.random() < 0.3:  # predicted instances among the ground truth
+            for _ in range(rng.choice([1, 1, 2])):
+                src = rng.choice(gts) if gts and rng.random() < 0.6 else None
+                pose = noisy_copy(rng, src, rng.choice([1, 4]), 0.1, 2, R) if src else \
+                    gen_pose(rng, n_nodes, 2, R, p_nan, shape="free")
+                at = rng.randint(0, len(gts))
+                gts.insert(at, whole_nan(pose))
+                kinds.insert(at, F(rng.randint(0, 8), 8))
+        gtf.append([fi, [sh(g) for g in gts]])
+        gt_vid.append(gvi)
+        gt_kinds.append(kinds)
         if rng.random() < (0.0 if mode == "perfect" else 0.12):
             continue                                   # no prediction frame for this gt frame
+        user = [g for g, k in zip(gts, kinds) if k is None]
         prs = []
-        for g in gts:
+        for g in (user if (ulo or rng.random() < 0.5) else gts):
             r = rng.random()
             if mode == "perfect":
                 prs.append([[list(p) for p in g], F(rng.randint(0, 8), 8)])
@@ -87,24 +141,79 @@ def gen_eval(rng, thorough):
                     gen_pose(rng, n_nodes, 2, R, p_nan, shape="free")
                 prs.append([pose, F(rng.randint(0, 8), 8)])
         rng.shuffle(prs)
-        prf.append([fi, [[whole_nan(p), s] for p, s in prs]])
+        # the prediction video with the same key (first one: the one find_frame_pairs picks), else any
+        same = [i for i, k in enumerate(pvideos) if k == gvideos[gvi]]
+        pvi = same[0] if same and (mode == "perfect" or rng.random() < 0.9) else rng.randrange(len(pvideos))
+        prf.append([fi, [[sh(whole_nan(p)), s] for p, s in prs]])
+        pr_vid.append(pvi)
+        if mode != "perfect" and rng.random() < 0.12:           # a second prediction frame with the same key
+            dup = [[sh(gen_pose(rng, n_nodes, 2, R, 0, shape="free")), F(rng.randint(0, 8), 8)]
+                   for _ in range(rng.choice([0, 1, 2]))]
+            prf.append([fi, dup])
+            pr_vid.append(pvi)
     if mode != "perfect" and rng.random() < 0.2:
         prf.append([rng.choice([i for i in range(12, 16)]),
-                    [[gen_pose(rng, n_nodes, 2, R, 0, shape="free"), F(1, 2)]]])    # unpaired prediction frame
-    rng.shuffle(prf)
-    defaults = rng.random() < 0.4
-    if defaults:
-        mthrs = rthrs = pthrs = None
-    else:
-        mthrs = sorted({F(rng.randint(0, 16), 16) for _ in range(rng.randint(1, 5))})
-        rthrs = [F(rng.randint(0, 20), 20) for _ in range(rng.randint(1, 8))]
+                    [[sh(gen_pose(rng, n_nodes, 2, R, 0, shape="free")), F(1, 2)]]])    # unpaired prediction frame
+        pr_vid.append(rng.randrange(len(pvideos)))
+    order = list(range(len(prf)))
+    rng.shuffle(order)
+    prf, pr_vid = [prf[i] for i in order], [pr_vid[i] for i in order]
+    mthrs = rthrs = pthrs = None
+    if rng.random() >= 0.4:
+        mthrs = list({F(rng.randint(0, 17), 16) for _ in range(rng.randint(1, 5))})
+        mthrs = sorted(mthrs) if rng.random() < 0.7 else rng.sample(mthrs, len(mthrs))
+        rthrs = [F(rng.randint(0, 21), 20) for _ in range(rng.randint(1, 8))]
         if rng.random() < 0.5:
             rthrs = sorted(rthrs)
-        pthrs = sorted({F(rng.randint(-2, 48), 4) for _ in range(rng.randint(1, 5))})
+        if rng.random() < 0.6:
+            pthrs = sorted({F(rng.randint(-2, 48), 4) for _ in range(rng.randint(1, 5))})
     return {"kind": "eval", "mode": mode, "n_nodes": n_nodes, "ulo": ulo, "gtf": gtf, "prf": prf,
-            "thr": rng.choice([F(0), F(0), F(0), F(1, 4), F(1, 2)]),
+            "gvideos": gvideos, "pvideos": pvideos, "gt_vid": gt_vid, "pr_vid": pr_vid, "gt_kinds": gt_kinds,
+            "thr": rng.choice([F(0), F(0), F(0), F(1, 4), F(1, 2)] + ([] if mode == "perfect" else [F(-1)])),
             "sd": rng.choice([None, None, F(1, 8), F(1, 2)]), "sc": rng.choice([None, None, F(10), F(100)]),
-            "mthrs": mthrs, "rthrs": rthrs, "pthrs": pthrs, "sub": rng.randrange(1 << 30)}
+            "mthrs": mthrs, "rthrs": rthrs, "pthrs": pthrs, "sub": rng.randrange(1 << 30),
+            "second": (rng.random() < 0.5) if rng.random() < 0.25 else None,     # ulo of a 2nd Evaluator, same objects
+            "twice": rng.random() < 0.35}
+
+
+def norm_case(c):
+    """Defaults for cases written before several videos / instance kinds existed (corpus, old replays)."""
+    c.setdefault("gvideos", [[0, 0]])
+    c.setdefault("pvideos", [[0, 0]])
+    c.setdefault("gt_vid", [0] * len(c["gtf"]))
+    c.setdefault("pr_vid", [0] * len(c["prf"]))
+    c.setdefault("gt_kinds", [[None] * len(g) for _, g in c["gtf"]])
+    c.setdefault("second", None)
+    c.setdefault("twice", False)
+    return c
+
+
+def gt_view(c, second=False):
+    """Independent reading of find_frame_pairs: -> (ulo in force, per gt frame the indices of the instances that
+    take part, [(gt frame position, prediction frame position)]).  `second`: the state the gt labels are in
+    after a first Evaluator(user_labels_only=c['ulo']) overwrote `lf.instances` of the paired videos."""
+    pv = c["pvideos"]
+    has_pv = [any(k == gk for k in pv) for gk in c["gvideos"]]
+    alive = [list(range(len(g))) for _, g in c["gtf"]]
+    ulo = c["ulo"]
+    if second:
+        if c["ulo"]:
+            alive = [[i for i in a if c["gt_kinds"][fi][i] is None] if has_pv[c["gt_vid"][fi]] else a
+                     for fi, a in enumerate(alive)]
+        ulo = c["second"]
+    part = [[i for i in a if not ulo or c["gt_kinds"][fi][i] is None] for fi, a in enumerate(alive)]
+    pairs = []
+    for gvi, gk in enumerate(c["gvideos"]):
+        if not has_pv[gvi]:
+            continue
+        pvi = [i for i, k in enumerate(pv) if k == gk][0]
+        for fi, (idx, _) in enumerate(c["gtf"]):
+            if c["gt_vid"][fi] != gvi or (ulo and not part[fi]):
+                continue
+            cand = [pi for pi, (pidx, _) in enumerate(c["prf"]) if pidx == idx and c["pr_vid"][pi] == pvi]
+            if cand:
+                pairs.append((fi, cand[-1]))
+    return ulo, part, pairs
 
 
 def whole_nan(pose):
@@ -115,7 +224,7 @@ def whole_nan(pose):
 
 def delete_variant(c, fi, k):
     """The same label pair with prediction k of prediction-frame position fi deleted."""
-    d = {kk: v for kk, v in c.items() if kk not in ("M", "impl")}
+    d = {kk: v for kk, v in c.items() if kk not in ("db", "impl", "delete")}
     d["prf"] = [[idx, [p for j, p in enumerate(prs) if not (i == fi and j == k)]] for i, (idx, prs) in enumerate(c["prf"])]
     d["deleted_from"] = None
     return d
@@ -133,6 +242,7 @@ class Impl:
         self.labels = sio.load_slp(str(core.REPO / "tests/assets/minimal_instance.pkg.slp"))
         self.video = self.labels.video
         self.skels = {}
+        self.vdir = None
         lin = lambda a, b, n: [F(float(x)) for x in np.linspace(a, b, n)]
         self.def_m, self.def_r, self.def_p = lin(0.5, 0.95, 10), lin(0, 1, 101), lin(1, 10, 10)
 
@@ -141,6 +251,24 @@ class Impl:
             self.skels[n] = self.sio.Skeleton(nodes=[f"n{i}" for i in range(n)])
         return self.skels[n]
 
+    def new_video(self, key):
+        """A fresh HDF5-backed Video object for key (file id, dataset id); files live in the scratch dir."""
+        import h5py
+        np = self.np
+        if self.vdir is None:
+            self.vdir = core.scratch_dir() / "c16_videos"
+            self.vdir.mkdir(parents=True, exist_ok=True)
+            for f in (0, 1):
+                with h5py.File(self.vdir / f"f{f}.h5", "w") as h:
+                    for d in (0, 1):
+                        h.create_dataset(f"video{d}/video", data=np.zeros((1, 8, 8, 1), dtype=np.uint8))
+        return self.sio.Video.from_filename(str(self.vdir / f"f{key[0]}.h5"), dataset=f"video{key[1]}/video")
+
+    def cleanup(self):
+        import shutil
+        if self.vdir is not None:
+            shutil.rmtree(self.vdir, ignore_errors=True)
+
     def pts(self, pose):
         np = self.np
         return np.array([[np.nan if v is None else float(v) for v in p] for p in pose], dtype=np.float64)
@@ -148,21 +276,30 @@ class Impl:
     def labels_of(self, c):
         sio, sk = self.sio, self.skel(c["n_nodes"])
         g_lfs, p_lfs, g_inst, p_inst = [], [], [], []
-        for idx, gts in c["gtf"]:
-            ii = [sio.Instance.from_numpy(points_data=self.pts(g), skeleton=sk) for g in gts]
+        gvs = [self.new_video(k) for k in c["gvideos"]]
+        pvs = [self.new_video(k) for k in c["pvideos"]]
+        for (idx, gts), vi, kinds in zip(c["gtf"], c["gt_vid"], c["gt_kinds"]):
+            ii = [sio.Instance.from_numpy(points_data=self.pts(g), skeleton=sk) if k is None else
+                  sio.PredictedInstance.from_numpy(points_data=self.pts(g), skeleton=sk, score=float(k))
+                  for g, k in zip(gts, kinds)]
             g_inst.append(ii)
-            g_lfs.append(sio.LabeledFrame(video=self.video, frame_idx=idx, instances=ii))
-        for idx, prs in c["prf"]:
-            ii = [sio.PredictedInstance.from_numpy(points_data=self.pts(p), skeleton=sk, score=float(s))
-                  for p, s in prs]
+            g_lfs.append(sio.LabeledFrame(video=gvs[vi], frame_idx=idx, instances=ii))
+        for (idx, prs), vi in zip(c["prf"], c["pr_vid"]):
+            # float32 arrays, as inference produces them (sleap-io stores and returns float64)
+            ii = [sio.PredictedInstance.from_numpy(points_data=self.pts(p).astype(self.np.float32), skeleton=sk,
+                                                   score=float(s)) for p, s in prs]
+            if ii and ii[0].numpy().dtype != self.np.float64:
+                raise RuntimeError("sleap-io returned a non-float64 point array")
             p_inst.append(ii)
-            p_lfs.append(sio.LabeledFrame(video=self.video, frame_idx=idx, instances=ii))
-        mk = lambda lfs: sio.Labels(labeled_frames=lfs, videos=[self.video], skeletons=[sk])
-        return mk(g_lfs), mk(p_lfs), g_inst, p_inst
+            p_lfs.append(sio.LabeledFrame(video=pvs[vi], frame_idx=idx, instances=ii))
+        return (sio.Labels(labeled_frames=g_lfs, videos=gvs, skeletons=[sk]),
+                sio.Labels(labeled_frames=p_lfs, videos=pvs, skeletons=[sk]), g_inst, p_inst)
 
     def matrices(self, c):
-        """Per gt frame: the float64 OKS of every (gt, prediction) pair of the prediction frame with the
-        same index, exactly as match_instances obtains it (compute_oks with one prediction)."""
+        """The OKS table: for every (gt frame, prediction frame) with equal video key and frame index, the
+        float64 OKS of every instance of the gt frame with every instance of the prediction frame, exactly
+        as match_instances obtains it (compute_oks of the gt stack with one prediction; rows are
+        independent of each other, so the rows of a sub-stack are the rows of the full stack)."""
         np = self.np
         kw = {}
         if c["sd"] is not None:
@@ -170,19 +307,23 @@ class Impl:
         if c["sc"] is not None:
             kw["scale"] = float(c["sc"])
         out = []
-        for idx, gts in c["gtf"]:
-            pf = [prs for i, prs in c["prf"] if i == idx]
-            M = []
-            if pf and gts:
-                G = np.stack([self.pts(g) for g in gts], axis=0)
-                cols = []
-                for p, _ in pf[0]:
-                    with warnings.catch_warnings():
-                        warnings.simplefilter("ignore")
-                        o = self.ev.compute_oks(G, np.expand_dims(self.pts(p), 0), **kw)
-                    cols.append([None if math.isnan(v) else F(float(v)) for v in o[:, 0]])
-                M = [[col[i] for col in cols] for i in range(len(gts))]
-            out.append(M)
+        for gi, ((idx, gts), gvi) in enumerate(zip(c["gtf"], c["gt_vid"])):
+            for pi, ((pidx, prs), pvi) in enumerate(zip(c["prf"], c["pr_vid"])):
+                if pidx != idx or c["gvideos"][gvi] != c["pvideos"][pvi]:
+                    continue
+                M = []
+                if prs and gts:
+                    G = np.stack([self.pts(g) for g in gts], axis=0)
+                    cols = []
+                    for p, _ in prs:
+                        with warnings.catch_warnings():
+                            warnings.simplefilter("ignore")
+                            o = self.ev.compute_oks(G, np.expand_dims(self.pts(p), 0), **kw)
+                        cols.append([None if math.isnan(v) else F(float(v)) for v in o[:, 0]])
+                    M = [[col[i] for col in cols] for i in range(len(gts))]
+                elif gts:
+                    M = [[] for _ in gts]
+                out.append([gi, pi, M])
         return out
 
     def thresholds(self, c):
@@ -195,35 +336,53 @@ class Impl:
         """-> dict of plain python values | {'raises': kind}."""
         np = self.np
         gt, pr, g_inst, p_inst = self.labels_of(c)
-        kw = {"match_threshold": float(c["thr"]), "user_labels_only": c["ulo"]}
+        kw = {"match_threshold": float(c["thr"])}
         if c["sd"] is not None:
             kw["oks_stddev"] = float(c["sd"])
         if c["sc"] is not None:
             kw["oks_scale"] = float(c["sc"])
+        ulo = c["ulo"]
         with warnings.catch_warnings():
             warnings.simplefilter("ignore")
+            if c.get("second") is not None:
+                # a first Evaluator on the same label objects (its own result is the case without "second")
+                try:
+                    self.ev.Evaluator(gt, pr, user_labels_only=c["ulo"], **kw)
+                except Exception:
+                    pass
+                ulo = c["second"]
             try:
-                e = self.ev.Evaluator(gt, pr, **kw)
+                e = self.ev.Evaluator(gt, pr, user_labels_only=ulo, **kw)
             except ValueError:
                 return {"raises": "ErrValue"}
             except Exception as ex:
                 return {"raises": "ErrEmpty" if "Empty Frame Pairs" in str(ex) else type(ex).__name__}
             m, r, p = self.thresholds(c)
             fa = lambda l: np.array([float(x) for x in l])
-            if c["mthrs"] is None:
+            first = None
+            if c.get("twice"):
+                # every metric once before the measurement: the Evaluator's state must not change
+                f0 = e.evaluate()
+                e.voc_metrics(match_score_by="pck")
+                first = (float(f0["mOKS"]["mOKS"]), float(f0["distance_metrics"]["avg"]),
+                         float(f0["pck_metrics"]["mPCK"]), np.asarray(f0["distance_metrics"]["dists"], dtype=float).tolist())
+            if c["mthrs"] is None and c["pthrs"] is None:
                 full = e.evaluate()
                 voc, pck = full["voc_metrics"], full["pck_metrics"]
                 moks, dm, vis = full["mOKS"], full["distance_metrics"], full["visibility_metrics"]
                 pckvoc = e.voc_metrics(match_score_by="pck")
             else:
-                voc = e.voc_metrics(match_score_thresholds=fa(m), recall_thresholds=fa(r))
-                pck = e.pck_metrics(thresholds=fa(p))
+                mk = {} if c["mthrs"] is None else {"match_score_thresholds": fa(m), "recall_thresholds": fa(r)}
+                voc = e.voc_metrics(**mk)
+                pck = e.pck_metrics(thresholds=fa(p)) if c["pthrs"] is not None else e.pck_metrics()
                 moks, dm, vis = e.mOKS(), e.distance_metrics(), e.visibility_metrics()
-                pckvoc = None
+                # voc_metrics(match_score_by="pck") always scores with the default pixel thresholds
+                pckvoc = e.voc_metrics(match_score_by="pck", **mk) if c["pthrs"] is None else None
         gid = {id(x): (fi, k) for fi, ii in enumerate(g_inst) for k, x in enumerate(ii)}
         pid = {id(x): (fi, k) for fi, ii in enumerate(p_inst) for k, x in enumerate(ii)}
         out = {"pairs": [(gid.get(id(a.instance)), pid.get(id(b.instance)), float(o)) for a, b, o in e.positive_pairs],
-               "fn": [gid.get(id(a.instance)) for a in e.false_negatives]}
+               "fn": [gid.get(id(a.instance)) for a in e.false_negatives],
+               "frame_pairs": [(g_lfs_pos(gt, a), g_lfs_pos(pr, b)) for a, b in e.frame_pairs]}
 
         def vocd(v, name):
             if v is None:
@@ -239,6 +398,7 @@ class Impl:
         out["moks"] = float(moks["mOKS"])
         d = np.asarray(dm["dists"], dtype=float)
         out["dists"] = d.reshape(len(e.positive_pairs), -1).tolist() if d.size else []
+        out["dist_frames"] = [int(x) for x in dm["frame_idxs"]]
         out["avg"] = float(dm["avg"])
         out["ptiles"] = [float(dm[k]) for k in ("p50", "p75", "p90", "p95", "p99")]
         out["pcks"] = np.asarray(pck["pcks"]).tolist()
@@ -247,18 +407,58 @@ class Impl:
         out["mpck"] = float(pck["mPCK"])
         out["vis"] = [int(vis[k]) for k in ("tp", "fp", "tn", "fn")]
         out["vprec"], out["vrec"] = float(vis["precision"]), float(vis["recall"])
+        if first is not None:
+            same = lambda a, b: (a == b) or (a != a and b != b)
+            flat = lambda rows: [x for r in rows for x in (r if isinstance(r, list) else [r])]
+            d1, d2_ = flat(first[3]), flat(out["dists"])
+            out["state_changed"] = not (same(first[0], out["moks"]) and same(first[1], out["avg"]) and
+                                        (c["pthrs"] is not None or same(first[2], out["mpck"])) and
+                                        len(d1) == len(d2_) and all(same(x, y) for x, y in zip(d1, d2_)))
         return out
+
+    def bad_option(self, c):
+        """voc_metrics with an unknown `match_score_by` must raise (not silently score by something else)."""
+        gt, pr, _, _ = self.labels_of(c)
+        try:
+            e = self.ev.Evaluator(gt, pr, user_labels_only=c["ulo"])
+        except Exception:
+            return None
+        try:
+            e.voc_metrics(match_score_by="iou")
+        except Exception as ex:
+            return None if "Invalid Option" in str(ex) else f"unexpected error {type(ex).__name__}"
+        return "voc_metrics(match_score_by='iou') returned a result"
+
+
+def g_lfs_pos(labels, lf):
+    for i, x in enumerate(labels.labeled_frames):
+        if x is lf:
+            return i
+    return None
 
 
 # ---------------------------------------------------------------- Coq term
+def cinst(pose, kind):
+    return f"({cpose(pose)}, {'None' if kind is None else '(Some ' + core.cq(kind) + ')'})"
+
+
+def clabels(vkeys, frames, vids, kinds):
+    vs = core.clist(vkeys, lambda k: f"({k[0]}%nat, {k[1]}%nat)")
+    fs = core.clist(list(zip(frames, vids, kinds)),
+                    lambda t: f"(LF {t[1]}%nat {t[0][0]}%nat {core.clist(list(zip(t[0][1], t[2])), lambda x: cinst(*x))})")
+    return f"({vs}, {fs})"
+
+
 def term(c, impl, fixed51):
     m, r, p = impl.thresholds(c)
-    gfs = core.clist(zip(c["gtf"], c["M"]), lambda t: f"({t[0][0]}%nat, {cposes(t[0][1])}, {cmatrix(t[1])})")
-    pfs = core.clist(c["prf"], lambda t: f"({t[0]}%nat, {cposes([x[0] for x in t[1]])}, "
-                                         f"{core.clist([x[1] for x in t[1]], core.cq)})")
+    gtL = clabels(c["gvideos"], c["gtf"], c["gt_vid"], c["gt_kinds"])
+    prL = clabels(c["pvideos"], [[idx, [x[0] for x in prs]] for idx, prs in c["prf"]], c["pr_vid"],
+                  [[x[1] for x in prs] for _, prs in c["prf"]])
+    db = core.clist(c["db"], lambda t: f"({t[0]}%nat, {t[1]}%nat, {cmatrix(t[2])})")
     ql = lambda l: core.clist(l, core.cq)
-    return (f"CEval {core.cbool(fixed51)} {core.cbool(c['ulo'])} {core.cq(c['thr'])} {c['n_nodes']}%nat {gfs} {pfs} "
-            f"{ql(m)} {ql(r)} {ql(p)}")
+    head = f"CEval {core.cbool(fixed51)} {core.cbool(c['ulo'])}" if c.get("second") is None else \
+        f"CEval2 {core.cbool(fixed51)} {core.cbool(c['ulo'])} {core.cbool(c['second'])}"
+    return (f"{head} {core.cq(c['thr'])} {c['n_nodes']}%nat {db} {gtL} {prL} {ql(m)} {ql(r)} {ql(p)}")
 
 
 # ---------------------------------------------------------------- comparison
@@ -326,6 +526,8 @@ def compare(c, m, out, impl, stats):
         return f"impl raises {out['raises']}, model returns a report"
     voc, moks, d2, pcks, parts, mpck, vis, vprec, vrec, nfn, pckvoc = m
     mthrs, rthrs, pthrs = impl.thresholds(c)
+    if out.get("state_changed"):
+        return "the metrics of one Evaluator changed between two calls (state modified by a metric method)"
     if len(d2) != len(out["pairs"]) or nfn != len(out["fn"]):
         return f"pairs/false negatives: impl {len(out['pairs'])}/{len(out['fn'])} model {len(d2)}/{nfn}"
     r = cmp_voc(voc, out["voc"], len(rthrs), True, "oks_voc")
@@ -377,11 +579,21 @@ def in01(x, tol=1e-12):
 
 def oracle_eval(c, out, impl):
     """Clauses (a)-(d) on one implementation output.  Returns reason or None."""
+    _, part, expect = gt_view(c, second=c.get("second") is not None)
     if "raises" in out:
         if out["raises"] == "ErrEmpty":
-            paired = any(gts or not c["ulo"] for idx, gts in c["gtf"] if any(i == idx for i, _ in c["prf"]))
-            return None if not paired else "Evaluator reports empty frame pairs although a gt frame has a prediction frame"
+            return None if not expect else "Evaluator reports empty frame pairs although a gt frame has a prediction frame"
         return f"Evaluator raises {out['raises']}"
+    # frame pairing: exactly the gt frames that have a prediction frame (same video key, same index), once each,
+    # and matched + missed = every participating gt instance of those frames
+    if sorted(out["frame_pairs"]) != sorted(expect):
+        return f"frame pairs {sorted(out['frame_pairs'])}, expected {sorted(expect)}"
+    want = sorted((fi, k) for fi, _ in expect for k in part[fi])
+    got = sorted([g for g, _, _ in out["pairs"]] + out["fn"], key=lambda x: (x is None, x))
+    if got != want:
+        return f"matched + missed gt instances {got} != gt instances of the paired frames {want}"
+    if out["dist_frames"] != [c["gtf"][g[0]][0] for g, _, _ in out["pairs"]]:
+        return "distance_metrics frame_idxs do not belong to the matched gt instances"
     npairs = len(out["pairs"])
     voc = out["voc"]
     mthrs, rthrs, pthrs = impl.thresholds(c)
@@ -428,8 +640,8 @@ def oracle_eval(c, out, impl):
         return "visibility ratio undefined although its denominator is positive"
     # (a) perfect predictions
     if c["mode"] == "perfect":
-        cross = any(v is not None and v >= 1 for M in c["M"] for i, row in enumerate(M) for j, v in enumerate(row)
-                    if not same_instance(c, M, i, j))
+        cross = any(v is not None and v >= 1 and c["prf"][pi][1][j][0] != c["gtf"][gi][1][i]
+                    for gi, pi, M in c["db"] for i, row in enumerate(M) for j, v in enumerate(row))
         if cross:
             c["_cross"] = True
             return None                                  # outside the theorem's hypothesis (coincident animals)
@@ -457,15 +669,6 @@ def oracle_eval(c, out, impl):
     return None
 
 
-def same_instance(c, M, i, j):
-    """perfect mode: prediction j of a frame is the copy of gt i (by content and position in the shuffle)."""
-    for (idx, gts), MM in zip(c["gtf"], c["M"]):
-        if MM is M:
-            prs = [prs for k, prs in c["prf"] if k == idx][0]
-            return prs[j][0] == gts[i]
-    return False
-
-
 def recalls_of(out, n):
     if out.get("voc") == "zeros":
         return [0.0] * n
@@ -485,18 +688,21 @@ def oracle_delete(c, out, out_del, fi, k, impl):
     if not worse:
         return None
     # selector (= complement of the hypothesis of c16_delete_prediction_partial): the deleted prediction was
-    # matched to a gt instance g, and a prediction processed later in the frame has OKS(g, .) > match threshold
+    # matched to a gt instance g, and a prediction q processed later in the frame has OKS(g, q) > match threshold
+    # and was itself unmatched or matched with an OKS <= OKS(g, q) (q would take g, or may prefer it)
     scores = [s for _, s in c["prf"][fi][1]]
-    idx = c["prf"][fi][0]
     sel = None
+    db = {(gi, pi): M for gi, pi, M in c["db"]}
     for g, p, _ in out["pairs"]:
         if p == (fi, k):
             gf, gk = g
-            row = c["M"][gf][gk]
+            row = db[(gf, fi)][gk]
             later = [j for j in range(len(scores)) if j != k and
                      ((scores[j] < scores[k]) or (scores[j] == scores[k] and j > k))]
-            if any(row[j] is not None and row[j] > c["thr"] for j in later):
-                sel = SEL_F6
+            got = {pp[1]: v for gg, pp, v in out["pairs"] if gg[0] == gf and pp[0] == fi}
+            for j in later:
+                if row[j] is not None and row[j] > c["thr"] and (j not in got or F(got[j]) <= row[j]):
+                    sel = SEL_F6
     return (f"deleting prediction {k} of frame {c['prf'][fi][0]} raises recall {r0[worse[0]]} -> {r1[worse[0]]} "
             f"at match threshold {impl.thresholds(c)[0][worse[0]]}", sel)
 
@@ -511,11 +717,11 @@ def gen_rnd(rng, n):
 # ---------------------------------------------------------------- the check
 def load_corpus():
     d = core.CORPUS / "C16"
-    return [dec(json.load(open(f))) for f in sorted(d.glob("*.json"))] if d.exists() else []
+    return [norm_case(dec(json.load(open(f)))) for f in sorted(d.glob("*.json"))] if d.exists() else []
 
 
 def case_json(c):
-    return enc({k: v for k, v in c.items() if k not in ("M", "impl", "base", "_cross")})
+    return enc({k: v for k, v in c.items() if k not in ("db", "impl", "base", "_cross")})
 
 
 def check(run: core.Run) -> int:
@@ -541,11 +747,12 @@ def check(run: core.Run) -> int:
         if c.get("delete") is not None:
             d = delete_variant(c, *c["delete"])
             d["mode"] = "derived"
+            d["twice"] = False
             d["base"] = c
             variants.append(d)
     allc = cases + variants
     for c in allc:
-        c["M"] = impl.matrices(c)
+        c["db"] = impl.matrices(c)
     terms = [term(c, impl, fixed51) for c in allc]
     rq = gen_rnd(rng, 400)
     terms.append("CRnd " + core.clist(rq, core.cq))
@@ -554,7 +761,12 @@ def check(run: core.Run) -> int:
     bad_rnd = [str(q) for q, m in zip(rq, rnd_model) if F(q.numerator / q.denominator) != fq(m)]
     run.obligation("round_f64 (Coq) == IEEE float64 division on every sampled fraction a/b <= 1", not bad_rnd,
                    ", ".join(bad_rnd[:5]))
-    stats = {"pckvoc_boundary_skipped": 0, "pairs": 0, "false_negatives": 0, "perfect_cases": 0,
+    bo = impl.bad_option(cases[len(corpus)])
+    run.obligation("voc_metrics rejects an unknown match_score_by option", bo is None, bo or "")
+    stats = {"several_videos": 0, "gt_frames_with_predicted_instances": 0, "duplicate_prediction_frames": 0,
+             "second_evaluator_same_objects": 0, "metrics_called_twice": 0, "all_nan_distance_rows": 0,
+             "all_nan_gt_instances": 0, "offset_coordinates": 0, "frame_pairs": 0,
+             "pckvoc_boundary_skipped": 0, "pairs": 0, "false_negatives": 0, "perfect_cases": 0,
              "perfect_cross_pair_excluded": 0, "deletions": 0, "deletions_raising_recall": 0, "errors": {}}
     disagree, nfail, dist = 0, 0, {}
     for c, m in zip(allc, model):
@@ -564,6 +776,18 @@ def check(run: core.Run) -> int:
         except Exception as e:
             out = {"raises": f"harness:{type(e).__name__}:{e}"}
         c["impl"] = out
+        stats["several_videos"] += len(c["gvideos"]) > 1 or len(c["pvideos"]) > 1
+        stats["gt_frames_with_predicted_instances"] += sum(any(k is not None for k in ks) for ks in c["gt_kinds"])
+        keys = [(v, i) for (i, _), v in zip(c["prf"], c["pr_vid"])]
+        stats["duplicate_prediction_frames"] += len(keys) != len(set(keys))
+        stats["second_evaluator_same_objects"] += c.get("second") is not None
+        stats["metrics_called_twice"] += bool(c.get("twice"))
+        stats["all_nan_gt_instances"] += sum(n_vis(g) == 0 for _, gts in c["gtf"] for g in gts)
+        stats["offset_coordinates"] += any(v is not None and abs(v) >= 500 for _, gts in c["gtf"] for g in gts
+                                           for pt in g for v in pt)
+        if "raises" not in out:
+            stats["frame_pairs"] += len(out["frame_pairs"])
+            stats["all_nan_distance_rows"] += sum(all(x != x for x in row) for row in out["dists"])
         run.case(case_json(c), nontrivial=("raises" not in out and len(out["pairs"]) >= 1))
         if "raises" in out:
             stats["errors"][out["raises"]] = stats["errors"].get(out["raises"], 0) + 1
@@ -606,17 +830,21 @@ def check(run: core.Run) -> int:
                 "non-trivial = at least one positive pair; distinct by full case content",
         "tolerance": {"atol": ATOL, "rtol": RTOL, "pairs, counts, pcks, sorted match scores": "exact"},
     })
+    impl.cleanup()
     for c in cases[:3]:
         run.sample(case_json(c))
     run.trusted += [
-        "sleap-io 0.9.2 (Labels.find, LabeledFrame.user_instances, Instance.numpy) supplies the frames; the model "
-        "starts from (frame index, instances) lists and pairs frames as find_frame_pairs does",
+        "sleap-io 0.9.2 (Labels.videos, Labels.find = frames of a Video object in order / the LAST frame with a given "
+        "(video, index), LabeledFrame.user_instances, Instance.numpy -> float64) supplies the frames; the model starts "
+        "from (video keys, frames = (video position, index, instances with kind)) and pairs as find_frame_pairs does",
         "float64: tp/npig is modelled by round_f64 (checked against IEEE division on every run); precisions, means, "
         "sqrt are compared within tolerance; the OKS matrix is taken from compute_oks (covered by C15)",
         "percentiles of distance_metrics are outside the property and not modelled",
     ]
     run.assumptions += [
-        "prediction frames have distinct frame indices; every gt instance has >= 1 visible keypoint; scores finite",
+        "all videos are HDF5Video-backed (other backends lack .dataset / .source_filename: AttributeError, outside "
+        "the model); prediction labels hold PredictedInstances only; scores finite; perfect-mode gt instances have "
+        ">= 1 visible keypoint (an all-NaN instance has OKS NaN with everything and is never matched)",
         "ratios are 'reported' when defined: with no positive pair mOKS/mPCK/avg are NaN and voc is the all-zero dict",
         "pck_voc is compared only when no per-pair PCK mean lies within 1e-9 of a match threshold",
     ]
@@ -627,15 +855,15 @@ def replay(run: core.Run, path: str) -> int:
     core.impl_env_setup()
     impl = Impl()
     rep = json.load(open(path))
-    c = dec(rep["case"] if "case" in rep else rep)
+    c = norm_case(dec(rep["case"] if "case" in rep else rep))
     rep.setdefault("delete", c.get("delete"))
-    c["M"] = impl.matrices(c)
+    c["db"] = impl.matrices(c)
     out = impl.run(c)
     bad = oracle_eval(c, out, impl)
     sel = None
     if bad is None and rep.get("delete") is not None:
         d = delete_variant(c, *rep["delete"])
-        d["M"] = impl.matrices(d)
+        d["db"] = impl.matrices(d)
         r = oracle_delete(c, out, impl.run(d), rep["delete"][0], rep["delete"][1], impl)
         if r:
             bad, sel = r
